@@ -328,6 +328,21 @@ class UnitResult:
     pass
 
 def check_unit(unit, repo, want_canary=False):
+    """an annotation anchored exactly where /repo gained new code can go before or after that code; hints are not trusted,
+    so both placements are tried and the one with fewer failed obligations is reported (DESIGN.md 5.2)"""
+    res = check_unit1(unit, repo, want_canary, 0)
+    if res.status == "undecided" and "anchor ambiguous" in res.reason:
+        r1 = check_unit1(unit, repo, want_canary, 1)
+        if r1.status == "ok" and not r1.failures:
+            return r1
+        r2 = check_unit1(unit, repo, want_canary, 2)
+        cands = [r for r in (r1, r2) if r.status == "ok"]
+        if not cands:
+            return r1
+        return min(cands, key=lambda r: len(r.failures))
+    return res
+
+def check_unit1(unit, repo, want_canary=False, ambig=0):
     res = UnitResult()
     res.unit = unit
     res.udesc = B.load_unit(unit)
@@ -341,7 +356,7 @@ def check_unit(unit, repo, want_canary=False):
     res.canary = None
     t0 = time.time()
     try:
-        b = B.build(unit, repo)
+        b = B.build(unit, repo, ambig)
     except (M.MergeError, X.ExtractError, Exception) as e:
         res.status = "undecided"
         res.reason = "%s: %s" % (type(e).__name__, e)
